@@ -4,7 +4,7 @@
    inside the repository's packages), read or write, synchronised or not, and the function
    in which the access occurs. *)
 From Coq Require Import List String.
-From Storage Require Import Db.Access.
+From Storage Require Import Db.Access Db.LockTable Db.MemView.
 Import ListNotations.
 Open Scope string_scope.
 
@@ -394,4 +394,20 @@ Definition table : list helper := [
       {| a_loc := "zitiql.dateTimeStripper"; a_kind := ARead; a_sync := false; a_via := "zitiql.ParseZqlDatetime" |}] |};
   {| h_name := "zitiql.ParseZqlString"; h_acc := [
       {| a_loc := "zitiql.zqlStringUnescaper"; a_kind := ARead; a_sync := false; a_via := "zitiql.ParseZqlString" |}] |}
+].
+
+(* functions that can be called with a running transaction in hand (methods of a type guarding its handle
+   with a mutex, with a *bbolt.Tx / MutateContext parameter): acquisitions of that mutex on the path taken
+   when the transaction is open.  Model: Db/LockTable.v *)
+Definition lock_table : list lockfn := [
+  {| lf_name := "boltz.DbImpl.Batch"; lf_in_tx := [] |};
+  {| lf_name := "boltz.DbImpl.RootBucket"; lf_in_tx := [] |};
+  {| lf_name := "boltz.DbImpl.SnapshotInTx"; lf_in_tx := [] |};
+  {| lf_name := "boltz.DbImpl.Update"; lf_in_tx := [] |}
+].
+
+(* strings / slices built as views of existing memory (unsafe, reflect headers) in the repository's packages,
+   and whether the memory is a fresh allocation of the same function.  Model: Db/MemView.v *)
+Definition view_table : list memview := [
+
 ].
